@@ -1,6 +1,8 @@
 import GcmpyModel.Driver.Util
 import GcmpyModel.Driver.C20
 import GcmpyModel.Driver.Gen
+import GcmpyModel.Driver.C04
+import GcmpyModel.Driver.C05
 /-! Line protocol: one JSON request per line on stdin, one JSON reply per line on stdout.
     The driver only *executes* the model's definitions; it is outside the proofs. -/
 open Lean Gcmpy.Driver
@@ -10,6 +12,8 @@ def dispatch (j : Json) : R Json := do
   match op with
   | "c20" => C20.handle j
   | "gen" => Gen.handle j
+  | "c04" => C04.handle j
+  | "c05" => C05.handle j
   | "ping" => pure (obj [("pong", Json.bool true)])
   | _ => throw s!"unknown op {op}"
 
